@@ -296,6 +296,33 @@ def quote_map_rows(qmap):
     return rows
 
 
+def sharing_flags(U):
+    """Do the three ways of making a URL object out of another one copy the query parameters?  Found out by EXERCISING the
+    current source: derive, edit one side in place (add / delete / clear), look at the other side - in both directions, for
+    every reference / argument form; `True` only if no edit ever shows on the other side."""
+    def independent(make):
+        for edit in (lambda qp: qp.add('zz', '1'), lambda qp: qp.pop('k', None), lambda qp: qp.clear(),
+                     lambda qp: qp.update([('k', 'new')])):
+            for side in (0, 1):
+                base = U.URL('http://u:p@h.example:81/a/b?k=v&k=w&e=#f')
+                base.query_params.add('x', 'y')
+                der = make(base)
+                pair = (base, der)
+                before = pair[1 - side].query_params.items(multi=True), pair[1 - side].to_text(True)
+                edit(pair[side].query_params)
+                if (pair[1 - side].query_params.items(multi=True), pair[1 - side].to_text(True)) != before:
+                    return False
+                if pair[0].query_params is pair[1].query_params:
+                    return False
+        return True
+    nav = all(independent(lambda b, r=r: b.navigate(r)) for r in ('#frag', '', '#', U.URL('#obj'), U.URL('')))
+    nav = nav and all(independent(lambda b, r=r: b.navigate(b if r is None else r)) for r in (None,))
+    return {'urlCopy': independent(lambda b: U.URL(b)),
+            'fromParts': independent(lambda b: U.URL.from_parts(scheme='http', host='h', query_params=b.query_params))
+            and independent(lambda b: U.URL.from_parts(scheme='http', host='h', query_params=U.QueryParamDict(b.query_params))),
+            'navigate': nav}
+
+
 def generate_tables(U):
     """boltons/urlutils.py (live module of the current working tree) -> Generated/C06_UrlTables.lean"""
     out = ['/- GENERATED by harness/bv/props/c06.py (regen hook) from boltons/urlutils.py - do not edit. -/',
@@ -355,6 +382,14 @@ def generate_tables(U):
     out.append('def portPlus : Bool := %s' % ('true' if pr['plus'] else 'false'))
     out.append('def portMinus : Bool := %s' % ('true' if pr['minus'] else 'false'))
     out.append('def portUnderscore : Bool := %s' % ('true' if pr['underscore'] else 'false'))
+    out.append('')
+    sf = sharing_flags(U)
+    out.append('/- do `URL(url)`, `URL.from_parts(query_params=<another URL\'s query_params>)` and `url.navigate(ref)` put the query')
+    out.append('   parameters into a dictionary of their own?  Determined by exercising the code: derive, edit one side in place,')
+    out.append('   look at the other side (both directions, every reference form that inherits the base query). -/')
+    out.append('def urlCopyCopiesQuery : Bool := %s' % ('true' if sf['urlCopy'] else 'false'))
+    out.append('def fromPartsCopiesQuery : Bool := %s' % ('true' if sf['fromParts'] else 'false'))
+    out.append('def navigateCopiesQuery : Bool := %s' % ('true' if sf['navigate'] else 'false'))
     out.append('')
     out.append('end C06.Gen')
     return '\n'.join(out) + '\n'
@@ -774,11 +809,133 @@ def numeric_family():
     return out
 
 
+class OddStr(str):
+    """a str all of whose instances hash alike and compare equal to anything.  Used in EARLIER calls of a history only
+    (an object that lies about equality is not a text: nothing is demanded of a call that is handed one, and a memo
+    keyed on it may well confuse two of them) - what such calls leave behind must not reach a later call on a real str."""
+    __slots__ = ()
+
+    def __hash__(self):
+        return 7
+
+    def __eq__(self, other):
+        return True
+
+    def __ne__(self, other):
+        return False
+
+
+def _odd(x, kw):
+    return OddStr(x) if kw.get('_odd') and isinstance(x, str) else x
+
+
+def _kw(kw):
+    return {k: v for k, v in kw.items() if not k.startswith('_')}
+
+
+def run_step(U, step):
+    """one EARLIER call of a history ('pre' step): [function name, positional arguments, keyword arguments], on the
+    module-level functions of boltons.urlutils or on a throw-away URL / QueryParamDict.  The result is returned
+    (callers ignore it: with non-default arguments it is outside the statement); exceptions propagate."""
+    name, args, kw = step[0], list(step[1]), dict(step[2]) if len(step) > 2 else {}
+    k = _kw(kw)
+    if name == 'unquote':
+        return U.unquote(_odd(args[0], kw), *args[1:], **k)
+    if name == 'unquote_to_bytes':
+        a = args[0]
+        if kw.get('_bytes'):
+            a = a.encode('utf-8', 'surrogatepass')
+        return U.unquote_to_bytes(a)
+    if name in ('quote_u', 'quote_p', 'quote_q', 'quote_f'):
+        f = {'u': U.quote_userinfo_part, 'p': U.quote_path_part, 'q': U.quote_query_part, 'f': U.quote_fragment_part}[name[-1]]
+        return f(_odd(args[0], kw), *args[1:], **k)
+    if name == 'unq_of_quote':   # unquote(quote_X_part(text, True), <other arguments>): the escaped piece a rendering will contain
+        f = {'u': U.quote_userinfo_part, 'p': U.quote_path_part, 'q': U.quote_query_part, 'f': U.quote_fragment_part}[args[0]]
+        return U.unquote(f(args[1], True), **k)
+    if name in ('parse_url', 'parse_host', 'to_unicode', 'resolve_path_parts'):
+        return getattr(U, name)(*args, **k)
+    if name == 'parse_qsl':
+        return U.parse_qsl(*args, **k)
+    if name == 'spoil_parse_url':   # the caller edits the dictionary parse_url returned
+        d = U.parse_url(args[0])
+        d['host'], d['path'], d['query'], d['port'] = 'spoiled.example', '/spoiled', 'spoiled=1', 666
+        d.pop('scheme', None)
+        return None
+    if name == 'find_all_links':
+        res = U.find_all_links(*args, **k)
+        if kw.get('_spoil'):
+            for it in res:
+                if not isinstance(it, str):
+                    it.fragment = 'spoiled'
+                    it.query_params.add('spoiled', '1')
+            res.append('spoiled')
+        return res
+    if name == 'qpd':            # QueryParamDict.from_text(text).to_text(...)
+        return U.QueryParamDict.from_text(args[0]).to_text(*args[1:], **k)
+    if name == 'from_parts':
+        u = U.URL.from_parts(**k)
+        return [u.to_text(), u.to_text(full_quote=True)]
+    if name == 'url':            # URL(text), then a list of method calls on that (other) instance
+        a = args[0]
+        if kw.get('_bytes'):
+            a = a.encode('utf-8', 'surrogatepass')
+        u = U.URL(_odd(a, kw))
+        out = []
+        for m in (args[1] if len(args) > 1 else []):
+            mname, margs, mkw = m[0], list(m[1]) if len(m) > 1 else [], dict(m[2]) if len(m) > 2 else {}
+            try:
+                if mname == 'set':
+                    setattr(u, margs[0], tuple(margs[1]) if margs[0] == 'path_parts' else margs[1])
+                elif mname == 'qadd':
+                    u.query_params.add(*margs)
+                elif mname == 'get':
+                    out.append(getattr(u, margs[0]))
+                elif mname == 'eq':
+                    out.append(u == U.URL(margs[0]))
+                elif mname in ('str', 'repr'):
+                    out.append({'str': str, 'repr': repr}[mname](u))
+                elif mname == 'copy':
+                    out.append(U.URL(u).to_text())
+                else:
+                    out.append(getattr(u, mname)(*margs, **mkw))
+            except CaseTimeout:
+                raise
+            except Exception as e:
+                out.append(exc_name(e))
+        return out
+    if name == 'burst':          # many distinct calls: fills (and overflows) whatever bounded table sits behind a function
+        fn, n, salt = args
+        for i in range(n):
+            t = '%s%%4%x%d' % (salt, i % 16, i)
+            if fn == 'unquote':
+                U.unquote(t)
+            elif fn == 'quote':
+                U.quote_path_part(t, i % 2 == 0)
+                U.quote_query_part(t, i % 2 == 1)
+            elif fn == 'parse_url':
+                U.parse_url('http://h%d/%s' % (i, t))
+        return None
+    raise ValueError('unknown step %r' % (name,))
+
+
 class C06(Property):
     PID = 'C06'
     QUICK_BUDGET_S = 45
     THOROUGH_BUDGET_S = 700
-    RULE = ('cases, small adversarial families first: (0) ~90 texts on which a shortcut in a quoting function goes wrong '
+    RULE = ('cases, small adversarial families first: (00) HISTORIES, before anything else has been decoded in the process: the judged '
+            'call (unquote / quote_*_part / URL(text) / a built URL / find_all_links) after EARLIER calls on the same salted text with '
+            'every other argument form (unquote with 14 encoding / errors forms incl. positional, None, unknown codec, a str subclass '
+            'with constant hash and universal ==; the four quoters in the other mode and on the other component; parse_qsl with '
+            'keep_blank_values / encoding; the escaped piece decoded with another codec; find_all_links with the other keywords), after '
+            'a fixed list of ~75 calls of EVERY public function with EVERY keyword it accepts (failing calls, bytes arguments, spoiled '
+            'return values among them), after 255..4097 distinct earlier calls (bounded tables), default call / other form / default '
+            'call again - and the judged call is made twice; (01) DERIVATIONS: 7 bases x 37 edges that make a URL object out of '
+            'another (URL(url); from_parts with the other URL\'s query_params object / items / OMD / dict / pairs and path_parts tuple / '
+            'list, the caller editing its arguments afterwards; navigate to 13 references, to itself, to a URL object that is edited '
+            'afterwards), two derivations from one base, chains base -> d1 -> d2, the base dropped; then in-place edits of either side '
+            '(25 kinds: qp add / set / del / clear / update / poplast, attribute and path sets, normalize, spoiling of every list / dict '
+            'the object hands out, pure reads, the .qp alias) - EVERY live object is re-read after EVERY step; '
+            '(0) ~90 texts on which a shortcut in a quoting function goes wrong '
             '(trailing / leading / doubled line breaks, non-ASCII alphanumerics and digits, NFC- vs NFKC-unstable '
             'characters, every delimiter, stray and partial escapes) in all 6 components and 4 quote functions; every '
             'spelling of an escape (both hex digits in either case, near misses such as %+1); repeated query keys in '
@@ -814,9 +971,16 @@ class C06(Property):
                    'from unicodedata, themselves probed against int()) and validates on ~1500 port texts; the '
                    "interpreter's limit on the number of digits (sys.get_int_max_str_digits) is outside the model: "
                    'texts longer than 4000 characters are oracle-only',
-                   'URL objects are independent values in the model; sharing between objects alive at the same time and '
-                   'history-dependent rendering are checked on the implementation (sequence cases, twin objects) and show '
-                   'as correspondence mismatches']
+                   'URL objects are independent values in the quoting / parsing / rendering model; that view is justified by the '
+                   'object-store model of Sharing.lean (objects refer to mutable query dictionaries; objects_unshared, edit_stays_local) '
+                   'given that URL(url), from_parts(query_params=other.query_params) and navigate copy the parameters - three flags the '
+                   'translator regenerates by exercising the source; path_parts (an immutable tuple, a list after normalize()) and the '
+                   'scalar attributes are not in the store model: their independence, and history-independence of every function '
+                   '(module-level tables, memos), are checked on the implementation only (derivation / history / sequence cases, twin '
+                   'objects): the model has no state, so anything an earlier call leaves behind shows as a mismatch',
+                   'earlier calls of a history are made with argument forms the statement does not speak about (other codecs, '
+                   'error handlers, keep_blank_values=False ...): their results and exceptions are ignored, only the judged default-form '
+                   'call after them is compared / judged']
     CORRESPONDENCE_NAME = ('C06.Driver (quote/unquote/parse_url/URL/to_text/find_all_links loop model) vs '
                            'boltons.urlutils')
 
@@ -1194,8 +1358,270 @@ class C06(Property):
                 yield {'k': 'l', 't': tmpl.replace('%s', pt), 'wt': i % 2, 'ds': ('https', 'https', '')[i % 3],
                        'schemes': [[], [], ['https']][(i // 3) % 3]}
 
+    # --- histories (kind 'h'): EARLIER calls with other argument forms, then the judged call, made twice ----------
+    # texts whose decoding depends on the codec / error handler, or that look alike to a careless key
+    ESC_TEXTS = ['caf%E9', '%e9', '%C3%A9', '%ff%FE', 'a%80b', '%C0%AF', '%41%E9%42', 'x%A0y', '%F0%9F%98', '%ED%A0%80',
+                 '%E2%82', 'a+b%2B', '%2F%3F%23', '%00%7F']
+    UNQ_FORMS = [[[], {'encoding': 'latin-1'}], [[], {'errors': 'ignore'}], [[], {'errors': 'strict'}],
+                 [[], {'encoding': 'ascii'}], [[], {'encoding': 'ascii', 'errors': 'ignore'}], [[], {'encoding': 'utf-16'}],
+                 [['cp1252', 'ignore'], {}], [['latin-1'], {'errors': 'strict'}], [[], {'encoding': None}],
+                 [[], {'errors': None}], [[], {'encoding': 'utf-8', 'errors': 'replace'}], [[], {'_odd': 1}],
+                 [[], {'encoding': 'utf-8', 'errors': 'surrogateescape'}], [[], {'encoding': 'no-such-codec'}]]
+
+    def generic_pre(self, salt):
+        """every public function of the family with every keyword / positional form it accepts, several failing
+        calls among them - the same list for every case (only the salt differs, so that nothing in it was seen before)"""
+        t = 'g%s%%E9%%41' % salt
+        u = 'http://u%%E9:p@Host.example:81/a/../%s;x?k=%s&k=2&e=#f%%E9' % (t, t)
+        return [
+            ['unquote', [t], {'encoding': 'latin-1'}], ['unquote', [t, 'ascii', 'ignore'], {}], ['unquote', [None], {}],
+            ['unquote', [t], {'errors': 'strict'}], ['unquote_to_bytes', [t], {}], ['unquote_to_bytes', [t], {'_bytes': 1}],
+            ['unquote_to_bytes', [''], {}], ['unquote_to_bytes', [None], {}],
+            ['quote_p', [t], {}], ['quote_p', [t, False], {}], ['quote_p', [], {'text': t, 'full_quote': True}],
+            ['quote_q', [t], {'full_quote': False}], ['quote_q', [t, True], {}], ['quote_f', [t], {'full_quote': False}],
+            ['quote_f', [t, 1], {}], ['quote_u', [t], {'full_quote': False}], ['quote_u', [t, 0], {}], ['quote_u', [t], {}],
+            ['quote_p', [None], {}], ['quote_q', [5], {'full_quote': False}], ['quote_p', [t], {'_odd': 1}],
+            ['parse_url', [u], {}], ['parse_url', [], {'url_text': 'http://[::1'}], ['parse_url', ['http://h:x' + salt], {}],
+            ['parse_url', [None], {}], ['spoil_parse_url', [u], {}], ['spoil_parse_url', [''], {}],
+            ['parse_host', ['[::1]'], {}], ['parse_host', ['1.2.3.4'], {}], ['parse_host', [], {'host': 'h' + salt}],
+            ['parse_host', ['[::zz]'], {}], ['parse_host', [''], {}],
+            ['parse_qsl', ['k=%s&b&c=' % t], {}], ['parse_qsl', ['k=%s&b&c=' % t], {'keep_blank_values': False}],
+            ['parse_qsl', ['k=%s;b' % t, True, 'latin-1'], {}], ['parse_qsl', ['k=%s' % t], {'encoding': 'latin-1'}],
+            ['parse_qsl', [None], {}],
+            ['qpd', ['k=%s&b&c=' % t], {}], ['qpd', ['k=%s&b&c=' % t], {'full_quote': True}], ['qpd', ['k=%s' % t, True], {}],
+            ['resolve_path_parts', [['', 'a', '..', t, '.']], {}], ['to_unicode', [t], {}],
+            ['find_all_links', ['see %s and www.%s.org.' % (u, salt)], {}],
+            ['find_all_links', ['see %s and www.%s.org.' % (u, salt)], {'with_text': True, 'default_scheme': False}],
+            ['find_all_links', ['see %s and www.%s.org.' % (u, salt), True, 'ftp', ['ftp']], {}],
+            ['find_all_links', ['see %s and www.%s.org.' % (u, salt)], {'schemes': ('https',), 'default_scheme': None, '_spoil': 1}],
+            ['find_all_links', ['www.xn--%s.org:x http://h:x' % salt], {'with_text': True}], ['find_all_links', [None], {}],
+            ['from_parts', [], {'scheme': 'http', 'host': 'h' + salt, 'path_parts': ['', t], 'query_params': [[t, t]],
+                                'fragment': t, 'port': 81, 'username': t, 'password': t}],
+            ['from_parts', [], {}], ['from_parts', [], {'path_parts': None}],
+            ['from_parts', [], {'scheme': 'http', 'host': 'h', 'query_params': {t: t}, 'port': 0, 'username': '', 'fragment': ''}],
+            ['url', [u, [['to_text'], ['to_text', [True]], ['to_text', [], {'full_quote': False}], ['get_authority'],
+                         ['get_authority', [True, True]], ['get_authority', [], {'full_quote': True}],
+                         ['get_authority', [], {'with_userinfo': True}], ['get_authority', [], {'full_quote': False, 'with_userinfo': False}],
+                         ['str'], ['repr'], ['eq', [u]], ['eq', ['x']], ['get', ['path']], ['get', ['qp']], ['get', ['uses_netloc']],
+                         ['get', ['default_port']], ['copy'], ['navigate', ['#n' + salt]], ['navigate', ['../x?y']], ['navigate', ['']],
+                         ['normalize', [], {'with_case': False}], ['to_text'], ['normalize'], ['normalize', [True]], ['to_text', [True]],
+                         ['set', ['path', '/s/%s' % t]], ['set', ['fragment', t]], ['qadd', [t, t]], ['to_text', [True]],
+                         ['set', ['host', 'b\xfccher.' + salt]], ['to_text', [True]], ['set', ['host', 'a..b']], ['to_text', [True]],
+                         ['get_authority', [True]], ['navigate', ['http://[::1']], ['navigate', [None]]]], {}],
+            ['url', ['http://h/%s' % t, [['to_text', [True]]]], {'_bytes': 1}], ['url', ['\xff\xfe', []], {'_bytes': 1}],
+            ['url', ['http://[::1' + salt, []], {}], ['url', ['http://h:99x/' + salt, []], {}], ['url', ['http://xn--a.' + salt, []], {}],
+            ['url', [u, [['to_text', [True]]]], {'_odd': 1}],
+        ]
+
+    @staticmethod
+    def _pieces(t):
+        return [p for p in dict.fromkeys(re.split(r'[/?#&=;:@+]', t)) if '%' in p]
+
+    def histories(self):
+        """the judged call after EARLIER calls that use other argument forms on the same text (module-level functions,
+        another instance, failing calls), and the judged call made a second time.  The model has no state: whatever the
+        earlier calls leave behind must not show."""
+        n = [0]
+
+        def salt():
+            n[0] += 1
+            return 'Zq%d' % n[0]
+        # (1) unquote / URL(text): every argument form of unquote and parse_qsl on the same escaped text first
+        for i, e in enumerate(self.ESC_TEXTS):
+            for j, (a, kw) in enumerate(self.UNQ_FORMS):
+                s = salt()
+                t = e + s
+                pre = [['unquote', [t] + a, kw]]
+                yield {'k': 'h', 'pre': pre, 'case': {'k': 'u', 't': t}}
+                url = 'http://h/%s/x?%s=%s&k#%s' % (t, t, t, t)
+                s2 = salt()
+                url2 = 'http://u%s:%s@h/%s?k=%s' % (e + s2, e + s2, e + s2, e + s2)
+                pre2 = pre + [['spoil_parse_url', [(url, url2)[(i + j) % 2]], {}], ['spoil_parse_url', [''], {}],
+                              ['unquote', [url] + a, kw], ['parse_qsl', ['%s=%s' % (t, t)], {'encoding': 'latin-1'}],
+                              ['parse_qsl', ['%s=%s' % (t, t), False, 'latin-1'], {}], ['unquote', [e + s2] + a, kw]]
+                yield {'k': 'h', 'pre': pre2, 'case': {'k': 'p', 't': (url, url2)[(i + j) % 2]}}
+            # the default call first, another form in between, the default call again (a table that is overwritten)
+            t = e + salt()
+            yield {'k': 'h', 'pre': [['unquote', [t], {}], ['unquote', [t], {'encoding': 'latin-1'}], ['unquote', [t, 'ascii', 'ignore'], {}]],
+                   'case': {'k': 'u', 't': t}}
+            t = e + salt()
+            yield {'k': 'h', 'pre': [['unquote', [t], {'_odd': 1}], ['unquote', ['other' + t], {'_odd': 1, 'encoding': 'latin-1'}]],
+                   'case': {'k': 'u', 't': t}}
+        # (2) component round trips: the quoters with the other mode / the other component's function on the same text,
+        #     the escaped piece decoded with another codec, a twin object rendered the other way - before the judged object
+        for comp in COMPONENTS:
+            for text in self.VARIANT_TEXTS + ['\xe9\u65e5', 'caf\xe9 %E9', '\u212a:\u037e']:
+                if not text:
+                    continue
+                s = salt()
+                text = text + s
+                c = self.put(comp, text)
+                qf = {'user': 'u', 'pw': 'u', 'seg': 'p', 'qkey': 'q', 'qval': 'q', 'frag': 'f'}[comp]
+                pre = [['quote_' + q, [text, False], {}] for q in 'upqf'] + [['quote_' + q, [text], {'full_quote': True}] for q in 'fqpu']
+                pre += [['unq_of_quote', [qf, text], {'encoding': 'latin-1'}], ['unq_of_quote', [qf, text], {'errors': 'ignore', 'encoding': 'ascii'}]]
+                pre += [['from_parts', [], {'scheme': 'http', 'host': 'example.com', 'path_parts': c['parts'], 'query_params': c['query'],
+                                            'fragment': c['frag'], 'port': 8042, 'username': c['user'], 'password': c['pw']}]]
+                yield {'k': 'h', 'pre': pre, 'case': c}
+                yield {'k': 'h', 'pre': pre[::-1], 'case': dict(c, via='attrs')}
+                yield {'k': 'h', 'pre': pre[8:9] + [['quote_' + qf, [text], {'_odd': 1}]], 'case': {'k': 'q', 'c': qf, 't': text}}
+                yield {'k': 'h', 'pre': [['quote_' + qf, ['x' + text, False], {'_odd': 1}], ['quote_' + qf, ['y' + text], {'_odd': 1, 'full_quote': True}]],
+                       'case': {'k': 'q', 'c': qf, 't': text}}
+        # (3) every public function with every keyword it has, failing calls included, before each kind of judged call
+        for inner in ({'k': 'u', 't': '%E9%41'}, {'k': 'q', 'c': 'p', 't': '\xe9/ %'}, {'k': 'q', 'c': 'q', 't': '&=+;\xe9'},
+                      {'k': 'p', 't': 'http://u%E9:p@Host.example:81/a/../%E9;x?k=%E9&k=2&e=#f%E9'}, {'k': 'p', 't': 'http://[::1'},
+                      {'k': 'p', 't': '//h:x'}, {'k': 'p', 't': ''}, {'k': 'p', 't': 'http://h'}, self.base_build(),
+                      self.base_build(via='attrs', query=[['\xe9', '&'], ['\xe9', None]]),
+                      {'k': 'l', 't': 'see http://u%E9:p@Host.example:81/a?k=%E9 and www.x.org.', 'wt': 1, 'ds': 'https', 'schemes': []},
+                      {'k': 'l', 't': 'www.xn--a.org http://h:x www.ok.org', 'wt': 0, 'ds': 'https', 'schemes': ['https']}):
+            s = salt()
+            inner = dict(inner)
+            if 't' in inner and inner['k'] in ('u', 'q'):
+                inner['t'] += s
+            gp = self.generic_pre(s)
+            if inner['k'] == 'p':
+                gp = gp + [['spoil_parse_url', [inner['t']], {}], ['url', [inner['t'], [['set', ['fragment', 'spoiled']], ['qadd', ['sp', 'oiled']]]], {}]]
+            yield {'k': 'h', 'pre': gp, 'case': inner}
+            yield {'k': 'h', 'pre': gp[::-1], 'case': inner}
+        # (4) find_all_links with the other keyword forms on the same text first
+        for i, t in enumerate(['see http://a.b/c%E9 and www.x.org/%E9.', 'www.h.org:81/p?q#f (http://h/(x))', 'www.xn--a.com http://h:x']):
+            t = t.replace('.org', salt() + '.org')
+            for pre in ([['find_all_links', [t], {'with_text': True}]], [['find_all_links', [t, False, False], {}]],
+                        [['find_all_links', [t], {'default_scheme': 'ftp', 'schemes': ['ftp'], '_spoil': 1}]],
+                        [['find_all_links', [t], {'schemes': ('zz',)}], ['find_all_links', [t], {'_spoil': 1}]]):
+                for wt in (0, 1):
+                    yield {'k': 'h', 'pre': pre, 'case': {'k': 'l', 't': t, 'wt': wt, 'ds': 'https', 'schemes': []}}
+        # (5) bounded tables: many distinct earlier calls (around 2^k entries), then a judged call on a text that was
+        #     decoded another way long before
+        for nburst in (255, 257, 1023, 1025, 2047, 2049, 4097):
+            s = salt()
+            t = 'caf%E9' + s
+            yield {'k': 'h', 'pre': [['unquote', [t], {'encoding': 'latin-1'}], ['quote_p', [t, False], {}], ['burst', ['unquote', nburst, s], {}],
+                                     ['burst', ['quote', nburst // 2, s], {}]],
+                   'case': {'k': 'p', 't': 'http://h/%s?%s' % (t, t)}}
+
+    def random_history(self, rng):
+        r = rng.random()
+        s = 'Zr%d' % rng.randrange(10 ** 9)
+        if r < 0.3:
+            t = ''.join(rng.choice(UNQ_TOKENS) for _ in range(rng.randint(1, 4))) + s
+            a, kw = rng.choice(self.UNQ_FORMS)
+            return {'k': 'h', 'pre': [['unquote', [t] + a, kw]], 'case': {'k': 'u', 't': t}}
+        if r < 0.55:
+            c = self.grammar_url(rng)
+            a, kw = rng.choice(self.UNQ_FORMS)
+            pre = [['unquote', [p] + a, kw] for p in self._pieces(c['t'])] + [['unquote', [c['t']] + a, kw]]
+            gp = self.generic_pre(s)
+            pre += rng.sample(gp, 4)
+            return {'k': 'h', 'pre': pre, 'case': c}
+        if r < 0.8:
+            c = self.random_build(rng)
+            if c['host'] in HOSTS_IDN:
+                c['host'] = 'example.com'
+            texts = [x for x in [c['user'], c['pw'], c['frag']] + c['parts'] + [y for kv in c['query'] for y in kv if y] if x]
+            pre = []
+            for x in texts[:4]:
+                q = rng.choice('upqf')
+                pre.append(['quote_' + q, [x, rng.random() < 0.5], {}])
+                pre.append(['unq_of_quote', [q, x], dict([rng.choice([('encoding', 'latin-1'), ('errors', 'ignore'), ('encoding', 'ascii')])])])
+            return {'k': 'h', 'pre': pre + rng.sample(self.generic_pre(s), 3), 'case': c}
+        c = self.link_case(rng)
+        return {'k': 'h', 'pre': [['find_all_links', [c['t']], {'with_text': not c['wt'], 'default_scheme': rng.choice([False, 'ftp', None]),
+                                                               '_spoil': 1}]] + rng.sample(self.generic_pre(s), 3), 'case': c}
+
+    # --- derivations (kind 'd'): URL objects made FROM one another, in-place edits, every object re-read after every step
+    D_BASES = [['parse', 'http://u:p@h.example:81/a/b?k=v&k=w&e=#f'], ['parse', 'foo://h/x?q'], ['parse', 'http://[::1]:8/p/?a=1#z'],
+               ['parse', 'http://1.2.3.4?x=%26'], ['new', 'parts'], ['new', 'attrs'], ['parse', 'https://h.example/a/./b/../c?k=v']]
+    D_NAV = ['#frag', '', '?', '?n=1', 'x', './', '../y?z=1', '//other.example/p', 'http://abs.example/q?r=s#t', '#', '/abs', 'x#y', '?#']
+    D_EDITS = [['qadd', 'n\xe9w', 'v&1'], ['qset', 'k', 'set'], ['qdel', 'k'], ['qclear'], ['qupdate', [['k', 'u1'], ['z', None]]],
+               ['set', 'fragment', 'fr ag#'], ['set', 'path_parts', ['', 'new seg', '']], ['set', 'path', '/via%20path/x'],
+               ['set', 'username', 'us:er'], ['set', 'password', 'p@ss'], ['set', 'host', 'edited.example'], ['set', 'port', 4711],
+               ['set', 'scheme', 'https'], ['qpoplast'], ['qadd', 'k', None], ['norm', None], ['norm', False],
+               ['spoil', 'items'], ['spoil', 'getlist:k'], ['spoil', 'todict'], ['spoil', 'qcopy'], ['spoil', 'keys'], ['read'],
+               ['readqp'], ['qpadd', 'via', 'qp']]
+
+    def _d_base(self, spec):
+        if spec[0] == 'parse':
+            return list(spec)
+        return ['new', self.base_build(via=spec[1], query=[['k', 'v'], ['k', 'w'], ['e', '']], port=81)]
+
+    def derivations(self):
+        """several live URL objects derived from one another by every edge that hands components over (URL(url) copies,
+        from_parts with another URL's query_params / path_parts - the very objects, or lists / dicts made from them, which
+        the caller edits afterwards -, navigate to a text or to a URL object, also to itself), then in-place edits of the
+        derived object and of the base; EVERY object is re-read after EVERY step"""
+        edges = [['copy', 0]]
+        for qf in ('self', 'items', 'omd', 'dict', 'pairs', None):
+            for pf in ('tuple', 'list', None):
+                edges.append(['parts', {'qp_from': 0 if qf else None, 'qp_form': qf, 'pp_from': 0 if pf else None, 'pp_form': pf,
+                                        'spoil_args': 1}])
+        edges += [['nav', 0, d] for d in self.D_NAV]
+        edges += [['navself', 0], ['navobj', 0, '#of'], ['navobj', 0, '?'], ['navobj', 0, 'rel/x'], ['navobj', 0, 'http://abs.example/?q=1']]
+        ne = len(self.D_EDITS)
+        n = 0
+        for bi, base in enumerate(self.D_BASES):
+            for ei, edge in enumerate(edges):
+                # base, derived; edit the derived one, then the base, then the derived one again
+                for r in range(2):
+                    n += 1
+                    e1, e2, e3 = (self.D_EDITS[(n * 3 + x) % ne] for x in (0, 1, 2))
+                    steps = [self._d_base(base), edge, [e1[0], 1] + e1[1:], [e2[0], 0] + e2[1:], [e3[0], 1] + e3[1:]]
+                    if r == 1:    # the edit comes first, and the base is used before it is derived from
+                        steps = [self._d_base(base), ['read', 0], ['qadd', 0, 'pre', 'p'], edge, [e2[0], 0] + e2[1:], [e1[0], 1] + e1[1:]]
+                    yield {'k': 'd', 'steps': steps}
+            # two objects derived from one base through the same edge, a chain base -> d1 -> d2, and only the derived kept alive
+            for ei, edge in enumerate(edges):
+                n += 1
+                e1, e2 = self.D_EDITS[(n * 5) % ne], self.D_EDITS[(n * 5 + 2) % ne]
+                edge1 = [edge[0], 1] + edge[2:] if edge[0] != 'parts' else ['parts', dict(edge[1], qp_from=1 if edge[1]['qp_from'] is not None else None,
+                                                                                         pp_from=1 if edge[1]['pp_from'] is not None else None)]
+                if (bi + ei) % 3 == 0:
+                    yield {'k': 'd', 'steps': [self._d_base(base), edge, edge, [e1[0], 1] + e1[1:], [e2[0], 2] + e2[1:], ['qadd', 0, 'b', 'b']]}
+                elif (bi + ei) % 3 == 1:
+                    yield {'k': 'd', 'steps': [self._d_base(base), edge, edge1, [e1[0], 2] + e1[1:], [e2[0], 0] + e2[1:], ['qadd', 1, 'm', 'm']]}
+                else:
+                    yield {'k': 'd', 'steps': [self._d_base(base), edge, ['drop', 0], [e1[0], 1] + e1[1:], edge1, [e2[0], 2] + e2[1:]]}
+
+    def random_derivation(self, rng):
+        steps = [self._d_base(rng.choice(self.D_BASES))]
+        nobj = 1
+        live = [0]
+        for _ in range(rng.randint(2, 7)):
+            r = rng.random()
+            i = rng.choice(live)
+            if r < 0.35 and nobj < 4:
+                k = rng.random()
+                if k < 0.2:
+                    steps.append(['copy', i])
+                elif k < 0.55:
+                    qf, pf = rng.choice(['self', 'items', 'omd', 'dict', 'pairs', None]), rng.choice(['tuple', 'list', None])
+                    steps.append(['parts', {'qp_from': i if qf else None, 'qp_form': qf, 'pp_from': i if pf else None, 'pp_form': pf,
+                                            'spoil_args': rng.choice([0, 1])}])
+                elif k < 0.9:
+                    steps.append(['nav', i, rng.choice(self.D_NAV)])
+                elif k < 0.95:
+                    steps.append(['navself', i])
+                else:
+                    steps.append(['navobj', i, rng.choice(['#o', '?', 'r/x'])])
+                live.append(nobj)
+                nobj += 1
+            elif r < 0.4 and len(live) > 1:
+                steps.append(['drop', i])
+                live.remove(i)
+            else:
+                e = rng.choice(self.D_EDITS)
+                if e[0] == 'qadd' and rng.random() < 0.5:
+                    e = ['qadd', pick_text(rng), pick_text(rng)]
+                elif e[0] == 'set' and e[1] == 'fragment' and rng.random() < 0.5:
+                    e = ['set', 'fragment', pick_text(rng)]
+                steps.append([e[0], i] + e[1:])
+        return {'k': 'd', 'steps': steps}
+
     def cases(self, budget_s):
         rng = self.rng
+        for c in self.histories():      # first: nothing of what they decode may have been seen by the module before
+            yield c
+        for c in self.derivations():
+            yield c
         for t in self.EDGE_TEXTS:
             yield {'k': 'p', 't': t}
         for c in self.adversarial():
@@ -1225,6 +1651,9 @@ class C06(Property):
         counts = ((40000, 60000, 200000, 600000, 40000) if self.thorough else (4000, 8000, 15000, 20000, 4000))
         for _ in range(counts[0] // 4):
             yield self.random_sequence(rng)
+        for _ in range(counts[0] // 4):
+            yield self.random_history(rng)
+            yield self.random_derivation(rng)
         for _ in range(counts[0]):
             yield self.random_unquote(rng)
         for _ in range(counts[1]):
@@ -1252,9 +1681,17 @@ class C06(Property):
             yield c
         for c in self.sequences():
             yield c
+        for c in self.histories():
+            yield c
+        for c in self.derivations():
+            yield c
         while True:
             r = rng.random()
-            if r < 0.05:
+            if r < 0.02:
+                yield self.random_history(rng)
+            elif r < 0.04:
+                yield self.random_derivation(rng)
+            elif r < 0.06:
                 yield self.random_sequence(rng)
             elif r < 0.15:
                 yield self.random_unquote(rng)
@@ -1380,67 +1817,324 @@ class C06(Property):
     def _build(self, U, case):
         return self._build_finish(self._build_start(U, case), case)
 
+    def _impl_core(self, U, case):
+        k = case['k']
+        if k == 'q':
+            f = {'u': U.quote_userinfo_part, 'p': U.quote_path_part, 'q': U.quote_query_part,
+                 'f': U.quote_fragment_part}[case['c']]
+            t = OddStr(case['t']) if case.get('odd') else case['t']
+            full = f(t, full_quote=True)
+            return {'full': full, 'min': f(t, full_quote=False), 'default': f(t),
+                    'unq': U.unquote(full)}
+        if k == 'u':
+            return {'out': U.unquote(OddStr(case['t']) if case.get('odd') else case['t'])}
+        if k == 'p':
+            st = self._stage(U.URL, case['t'])
+            if 'exc' in st:
+                return {'chain': [st]}
+            return self._with_fresh(U.URL, {'chain': self._chain(U.URL, st)}, lambda: U.URL(case['t']))
+        if k == 'b':
+            obs = {'chain': self._chain(U.URL, self._descr(self._build(U, case)))}
+            return self._with_fresh(U.URL, obs, lambda: self._build(U, case))
+        if k == 's':
+            # several URL objects alive at once: all created, then all given their query, then all described
+            objs = []
+            for c in case['items']:
+                objs.append(self._build_start(U, c, objs))
+            for u, c in zip(objs, case['items']):
+                self._build_finish(u, c)
+            ds = [self._descr(u) for u in objs]
+            return {'chains': [self._chain(U.URL, d) for d in ds]}
+        if k == 'l':
+            res = U.find_all_links(case['t'], with_text=bool(case['wt']), default_scheme=case['ds'],
+                                   schemes=tuple(case['schemes']))
+            items = []
+            for it in res:
+                if isinstance(it, str):
+                    items.append({'t': it})
+                elif has_surrogate(case['t']):
+                    items.append({'u': '?'})     # rendering a lone surrogate is not demanded (and not compared)
+                else:
+                    items.append({'u': it.to_text(), 'ui': [it.username, it.password]})   # 'ui': for the NFC pairs
+            ms = []
+            prev = 0
+            for m in U._FIND_ALL_URL_RE.finditer(case['t']):
+                ms.append([case['t'][prev:m.start(1)], m.group(0)])
+                prev = m.end(1)
+            return {'items': items, 'matches': ms, 'tail': case['t'][prev:]}
+        if k == 'h':
+            # earlier calls (results and exceptions ignored: with other argument forms they are outside the statement),
+            # then the judged call - twice
+            for st in case['pre']:
+                try:
+                    run_step(U, st)
+                except CaseTimeout:
+                    raise
+                except Exception:
+                    pass
+            o1 = self._impl_safe(U, case['case'])
+            o2 = self._impl_safe(U, case['case'])
+            return {'first': o1, 'second': None if o2 == o1 else o2}
+        if k == 'd':
+            return self._impl_derive(U, case)
+        return {'exc': 'BadCase'}
+
+    def _impl_safe(self, U, case):
+        try:
+            return self._impl_core(U, case)
+        except CaseTimeout:
+            raise
+        except Exception as e:
+            return {'exc': exc_name(e), 'msg': str(e)[:200]}
+
     def impl(self, case):
         from boltons import urlutils as U
-        k = case['k']
         try:
             with time_limit(10):
-                if k == 'q':
-                    f = {'u': U.quote_userinfo_part, 'p': U.quote_path_part, 'q': U.quote_query_part,
-                         'f': U.quote_fragment_part}[case['c']]
-                    full = f(case['t'], full_quote=True)
-                    return {'full': full, 'min': f(case['t'], full_quote=False), 'default': f(case['t']),
-                            'unq': U.unquote(full)}
-                if k == 'u':
-                    return {'out': U.unquote(case['t'])}
-                if k == 'p':
-                    st = self._stage(U.URL, case['t'])
-                    if 'exc' in st:
-                        return {'chain': [st]}
-                    return self._with_fresh(U.URL, {'chain': self._chain(U.URL, st)}, lambda: U.URL(case['t']))
-                if k == 'b':
-                    obs = {'chain': self._chain(U.URL, self._descr(self._build(U, case)))}
-                    return self._with_fresh(U.URL, obs, lambda: self._build(U, case))
-                if k == 's':
-                    # several URL objects alive at once: all created, then all given their query, then all described
-                    objs = []
-                    for c in case['items']:
-                        objs.append(self._build_start(U, c, objs))
-                    for u, c in zip(objs, case['items']):
-                        self._build_finish(u, c)
-                    ds = [self._descr(u) for u in objs]
-                    return {'chains': [self._chain(U.URL, d) for d in ds]}
-                if k == 'l':
-                    res = U.find_all_links(case['t'], with_text=bool(case['wt']), default_scheme=case['ds'],
-                                           schemes=tuple(case['schemes']))
-                    items = []
-                    for it in res:
-                        if isinstance(it, str):
-                            items.append({'t': it})
-                        elif has_surrogate(case['t']):
-                            items.append({'u': '?'})     # rendering a lone surrogate is not demanded (and not compared)
-                        else:
-                            items.append({'u': it.to_text(), 'ui': [it.username, it.password]})   # 'ui': for the NFC pairs
-                    ms = []
-                    prev = 0
-                    for m in U._FIND_ALL_URL_RE.finditer(case['t']):
-                        ms.append([case['t'][prev:m.start(1)], m.group(0)])
-                        prev = m.end(1)
-                    return {'items': items, 'matches': ms, 'tail': case['t'][prev:]}
-                return {'exc': 'BadCase'}
+                return self._impl_core(U, case)
         except CaseTimeout:
             return {'exc': 'CaseTimeout'}
         except Exception as e:
             return {'exc': exc_name(e), 'msg': str(e)[:200]}
 
+    # ------------------------------------------------------------------ derivations
+    def _snap(self, u):
+        try:
+            d = self._descr(u)
+        except CaseTimeout:
+            raise
+        except Exception as e:
+            return {'exc': exc_name(e)}
+        ns = getattr(u, '_netloc_sep', None)
+        d['ns'] = None if ns is None else 1 if ns else 0
+        return d
+
+    @staticmethod
+    def _spoil(U, u, what):
+        """edit a value the object handed out; the object itself must not change"""
+        qp = u.query_params
+        if what == 'items':
+            l = qp.items(multi=True)
+            l.append(('sp', 'oiled'))
+            del l[:1]
+        elif what == 'keys':
+            for l in (qp.keys(multi=True), qp.values(multi=True), qp.keys(), list(u.path_parts)):
+                l.append('spoiled')
+                l.reverse()
+        elif what.startswith('getlist:'):
+            l = qp.getlist(what[8:], [])
+            l.append('spoiled')
+            l.reverse()
+        elif what == 'todict':
+            d = qp.todict(multi=True)
+            for v in d.values():
+                v.append('spoiled')
+            d['sp'] = ['oiled']
+            d2 = qp.todict()
+            d2['sp'] = 'oiled'
+        elif what == 'qcopy':
+            c = qp.copy()
+            c.add('sp', 'oiled')
+            c2 = U.QueryParamDict(qp)
+            c2.clear()
+            c.clear()
+
+    @staticmethod
+    def _read_all(U, u, others):
+        u.to_text(), u.to_text(True), u.to_text(full_quote=False)
+        for a, kw in (((), {}), ((True,), {}), ((True, True), {}), ((), {'with_userinfo': True}), ((), {'full_quote': True, 'with_userinfo': False})):
+            try:
+                u.get_authority(*a, **kw)
+            except UnicodeError:
+                pass
+        str(u), repr(u), u == u, u != u, u.path, u.uses_netloc, u.default_port, len(u.query_params)
+        for o in others:
+            if o is not None:
+                u == o, o != u
+
+    def _impl_derive(self, U, case):
+        objs, snaps, events, errs = [], [], [], []
+
+        def probe(si, targets):
+            for i, u in enumerate(objs):
+                if u is None:
+                    continue
+                s = self._snap(u)
+                if i not in targets and snaps[i] is not None and s != snaps[i]:
+                    f = [key for key in s if s.get(key) != snaps[i].get(key)] or ['?']
+                    events.append([si, 'alias', i, f[0], snaps[i].get(f[0]), s.get(f[0])])
+                snaps[i] = s
+
+        def expect(si, i, field, want):
+            got = snaps[i].get(field) if snaps[i] else None
+            if got != want:
+                events.append([si, 'edit_lost', i, field, want, got])
+
+        for si, st in enumerate(case['steps']):
+            op = st[0]
+            creator = op in ('new', 'parse', 'copy', 'parts', 'nav', 'navself', 'navobj')
+            n_before = len(objs)
+            try:
+                if creator:
+                    new, after = None, None
+                    if op == 'new':
+                        new = self._build(U, st[1])
+                    elif op == 'parse':
+                        new = U.URL(st[1])
+                    elif op != 'parts' and objs[st[1]] is None:
+                        new = None           # derived from an object that was dropped: nothing made
+                    elif op == 'copy':
+                        new = U.URL(objs[st[1]])
+                    elif op == 'nav':
+                        new = objs[st[1]].navigate(st[2])
+                    elif op == 'navself':
+                        new = objs[st[1]].navigate(objs[st[1]])
+                    elif op == 'navobj':
+                        dest = U.URL(st[2])
+                        new = objs[st[1]].navigate(dest)
+
+                        def after(dest=dest):
+                            dest.query_params.add('sp', 'oiled')
+                            dest.fragment, dest.path_parts, dest.host = 'spoiled', ('', 'spoiled'), 'spoiled.example'
+                    elif op == 'parts':
+                        sp = st[1]
+                        qsrc = objs[sp['qp_from']] if sp['qp_from'] is not None else None
+                        psrc = objs[sp['pp_from']] if sp['pp_from'] is not None else None
+                        src = qsrc if qsrc is not None else psrc if psrc is not None else (objs[0] if objs else None)
+                        qf, pf = (sp['qp_form'] if qsrc is not None else None), (sp['pp_form'] if psrc is not None else None)
+                        if qf == 'self':
+                            qarg = qsrc.query_params
+                        elif qf == 'items':
+                            qarg = qsrc.query_params.items(multi=True)
+                        elif qf == 'omd':
+                            qarg = U.OrderedMultiDict(qsrc.query_params.items(multi=True))
+                        elif qf == 'dict':
+                            qarg = dict(qsrc.query_params.items())
+                        elif qf == 'pairs':
+                            qarg = [list(kv) for kv in qsrc.query_params.items(multi=True)]
+                        else:
+                            qarg = [['own', '1'], ['own', None]]
+                        parg = psrc.path_parts if pf == 'tuple' else list(psrc.path_parts) if pf == 'list' else ['', 'own']
+                        new = U.URL.from_parts(scheme=(src.scheme if src else '') or 'http', host=(src.host if src else '') or 'h.example',
+                                               path_parts=parg, query_params=qarg, fragment='d', port=src.port if src else None,
+                                               username=src.username if src else '', password=src.password if src else '')
+                        if src is not None and src.family is not None:
+                            new.family = src.family       # from_parts() cannot carry the address family (navigate() does the same)
+                        if sp.get('spoil_args'):
+                            def after(qarg=qarg, parg=parg, qf=qf, pf=pf):
+                                if pf != 'tuple' and isinstance(parg, list):    # (a list of the caller's own making)
+                                    parg.append('spoiled')
+                                    parg[0:1] = ['zz']
+                                if qf == 'self':
+                                    return
+                                if isinstance(qarg, list):
+                                    if qarg and isinstance(qarg[0], list):
+                                        qarg[0][0] = 'sp'
+                                        qarg[0][1] = 'oiled'
+                                    qarg.append(('sp', 'oiled'))
+                                elif isinstance(qarg, U.OrderedMultiDict):
+                                    qarg.add('sp', 'oiled')
+                                else:
+                                    qarg['sp'] = 'oiled'
+                                    qarg.pop('k', None)
+                    objs.append(new)
+                    snaps.append(None)
+                    probe(si, {len(objs) - 1})
+                    if after is not None and new is not None:
+                        after()
+                        probe(si, set())
+                    continue
+                i = st[1]
+                u = objs[i] if i < len(objs) else None
+                if u is None:
+                    continue
+                before = snaps[i]
+                if op == 'drop':
+                    objs[i] = None
+                    del u
+                    probe(si, set())
+                elif op == 'read':
+                    self._read_all(U, u, objs)
+                    probe(si, set())
+                elif op == 'spoil':
+                    self._spoil(U, u, st[2])
+                    probe(si, set())
+                elif op == 'readqp':      # the documented alias of query_params, merely read
+                    len(u.qp), u.qp is u.qp
+                    probe(si, set())
+                elif op == 'qpadd':       # ... and used for an edit
+                    u.qp.add(st[2], st[3])
+                    probe(si, {i})
+                    if before and 'query' in before:
+                        expect(si, i, 'query', before['query'] + [[st[2], st[3]]])
+                elif op == 'norm':
+                    if st[2] is None:
+                        u.normalize()
+                    else:
+                        u.normalize(with_case=st[2])
+                    probe(si, {i})
+                elif op == 'qadd':
+                    u.query_params.add(st[2], st[3])
+                    probe(si, {i})
+                    if before and 'query' in before:
+                        expect(si, i, 'query', before['query'] + [[st[2], st[3]]])
+                elif op == 'qset':
+                    u.query_params[st[2]] = st[3]
+                    probe(si, {i})
+                    if before and 'query' in before:
+                        expect(si, i, 'query', [kv for kv in before['query'] if kv[0] != st[2]] + [[st[2], st[3]]])
+                elif op == 'qdel':
+                    u.query_params.pop(st[2], None)
+                    probe(si, {i})
+                    if before and 'query' in before:
+                        expect(si, i, 'query', [kv for kv in before['query'] if kv[0] != st[2]])
+                elif op == 'qclear':
+                    u.query_params.clear()
+                    probe(si, {i})
+                    expect(si, i, 'query', [])
+                elif op == 'qupdate':
+                    u.query_params.update([tuple(kv) for kv in st[2]])
+                    probe(si, {i})
+                elif op == 'qpoplast':
+                    if u.query_params:
+                        u.query_params.poplast()
+                    probe(si, {i})
+                elif op == 'set':
+                    attr, val = st[2], st[3]
+                    setattr(u, attr, tuple(val) if attr == 'path_parts' else val)
+                    probe(si, {i})
+                    fld = {'fragment': 'frag', 'username': 'user', 'password': 'pw', 'host': 'host', 'port': 'port', 'scheme': 'scheme',
+                           'path_parts': 'parts'}.get(attr)
+                    if fld:
+                        expect(si, i, fld, val)
+                else:
+                    raise ValueError('unknown step %r' % (op,))
+            except CaseTimeout:
+                raise
+            except Exception as e:
+                errs.append([si, exc_name(e), str(e)[:120]])
+                if creator and len(objs) == n_before:
+                    objs.append(None)
+                    snaps.append(None)
+        chains = [None if (u is None or s is None or 'exc' in s) else self._chain(U.URL, s) for u, s in zip(objs, snaps)]
+        return {'events': events, 'errs': errs, 'final': [None if u is None else s for u, s in zip(objs, snaps)], 'chains': chains}
+
     # ------------------------------------------------------------------ model line / canonical rendering
     def line(self, case):
+        return self._line(case, None if case['k'] in ('q', 'u') else self._obs_for(case))
+
+    def _line(self, case, obs):
         k = case['k']
         if k == 'q':
             return 'Q %s %s %s' % (case['c'], nfc_table(case['t']), cps(case['t']))
         if k == 'u':
             return 'U ' + cps(case['t'])
-        obs = self._obs_for(case)
+        if k == 'h':     # the model has no state: the earlier calls do not exist for it
+            if not isinstance(obs, dict) or 'first' not in obs:
+                return None
+            return self._line(case['case'], obs['first'])
+        if k == 'd':
+            return self._line_derive(case, obs)
         if k in ('p', 'l') and has_surrogate(case['t']):
             return None
         if k == 'p':
@@ -1465,6 +2159,33 @@ class C06(Property):
                 toks += [cps(pre), cps(m)]
             return ' '.join(toks)
         return None
+
+    def _line_derive(self, case, obs):
+        """the objects that are alive at the end, as independent values made of the components they now have: the model
+        (which knows no sharing) renders / re-parses each of them; what the implementation renders must agree"""
+        if not isinstance(obs, dict) or 'final' not in obs:
+            return None
+        args = []
+        for d, ch in zip(obs['final'], obs['chains']):
+            if d is None:
+                continue
+            if 'exc' in d or ch is None or d.get('ns') is None or d['fam'] not in (0, 4, 6):
+                return None
+            if not all(isinstance(d[key], str) for key in ('scheme', 'user', 'pw', 'host', 'frag')):
+                return None
+            if not (d['port'] is None or (isinstance(d['port'], int) and not isinstance(d['port'], bool))):
+                return None
+            if not all(isinstance(x, str) for x in d['parts']) or not all(
+                    isinstance(kk, str) and (vv is None or isinstance(vv, str)) for kk, vv in d['query']):
+                return None
+            if 'xn--' in d['host'] or has_surrogate(d['host']):
+                return None
+            args.append('%s %d %d %s %s %s %s %s %s %s %s' % (
+                nfc_table(d, ch), d['ns'], {0: 0, 4: 4, 6: 1}[d['fam']], cps(d['scheme']), cps(d['user']), cps(d['pw']), cps(d['host']),
+                '-' if d['port'] is None else str(d['port']), cps_list(d['parts']), cps_query(d['query']), cps(d['frag'])))
+        if not args:
+            return None
+        return 'S ' + ' ; '.join(args)
 
     @staticmethod
     def _b_args(case, obs, index=0):
@@ -1507,6 +2228,13 @@ class C06(Property):
         k = case['k']
         if 'exc' in obs:
             return '!!' + obs['exc']
+        if k == 'h':
+            out = self.render(case['case'], obs['first'])
+            if obs['second'] is not None:     # the model has one answer: a second, different one can never agree with it
+                out += ' ~again ' + self.render(case['case'], obs['second'])
+            return out
+        if k == 'd':
+            return ' || '.join(self._r_chain(ch) for d, ch in zip(obs['final'], obs['chains']) if d is not None)
         if k == 'q':
             return cps(obs['full']) + ' ' + cps(obs['min'])
         if k == 'u':
@@ -1547,6 +2275,24 @@ class C06(Property):
         st[k] = st.get(k, 0) + 1
         if 'exc' in obs:
             return Failure('raises', '%s case raised %s: %s' % (k, obs['exc'], obs.get('msg')))
+        if k == 'h':
+            inner = case['case']
+            f = self.oracle(inner, obs['first'])
+            nt = self._nt
+            which = 'the call'
+            if f is None and obs['second'] is not None:
+                st['again_differs'] = st.get('again_differs', 0) + 1
+                f = self.oracle(inner, obs['second'])
+                which = 'the SAME call made a second time'
+            self._nt = nt or bool(case['pre'])
+            if f is not None:
+                names = ', '.join('%s(%s)' % (p[0], ', '.join([repr(a)[:40] for a in p[1][:2]] + ['%s=%r' % kv for kv in (p[2] if len(p) > 2 else {}).items()]))
+                                  for p in case['pre'][:3])
+                return Failure(f.tag, 'after %d earlier call(s) [%s%s], %s: %s' % (len(case['pre']), names, ', ...' if len(case['pre']) > 3 else '',
+                                                                                 which, f.what))
+            return None
+        if k == 'd':
+            return self.oracle_derive(case, obs)
         if k == 'q':
             return self.oracle_quote(case, obs)
         if k == 'u':
@@ -1572,6 +2318,53 @@ class C06(Property):
         if k == 'l':
             self._nt = bool(obs['matches'])
             return None  # not raising is the whole demand (an exception was recorded as obs['exc'])
+        return None
+
+    D_CREATORS = ('new', 'parse', 'copy', 'parts', 'nav', 'navself', 'navobj')
+
+    def finding_qp_alias_reparses(self, case, failure):
+        """known finding C06-qp-alias: `URL.qp = query_params` re-registers the cachedproperty under a second name, so every
+        read of `url.qp` parses the ORIGINAL query text again and stores the result as `query_params`.  Matched only when the
+        first thing that goes wrong in a derivation case is: a step that reads / edits through `.qp` ('readqp', 'qpadd')
+        finds the query of the very object it works on changed."""
+        ev = getattr(failure, 'event', None)
+        if case.get('k') != 'd' or ev is None or failure.tag not in ('alias', 'edit_lost'):
+            return False
+        si, kind, i, field = ev
+        st = case['steps'][si]
+        return st[0] in ('readqp', 'qpadd') and st[1] == i and field == 'query'
+
+    def oracle_derive(self, case, obs):
+        """(1) a step that works on one URL object leaves every OTHER live object as it was - text placed in one URL is
+        recovered from that URL, never from a neighbour; spoiling a value an object handed out, or an argument it was
+        built from, changes nothing; (2) the simple edits take effect; (3) no step raises; (4) every object that has a
+        valid scheme, host and port gives its component texts back from its own full rendering"""
+        self._nt = True
+        steps = case['steps']
+        for si, kind, i, field, before, after in obs['events']:
+            if kind == 'alias':
+                f = Failure('alias', 'step %d %r changed URL object %d%s: %s was %r, now %r' % (
+                    si, steps[si], i, ', which it does not work on' if steps[si][0] in self.D_CREATORS or steps[si][1] != i else
+                    ' although it only reads', field, before, after))
+            else:
+                f = Failure('edit_lost', 'step %d %r on URL object %d: %s should read %r, reads %r' % (si, steps[si], i, field, before, after))
+            f.event = [si, kind, i, field]
+            return f
+        for si, name, msg in obs['errs']:
+            if name != 'URLParseError':     # (a derived text that does not parse is not this clause's business)
+                return Failure('step_raises', 'step %d %r raised %s: %s' % (si, steps[si], name, msg))
+        for i, (d, ch) in enumerate(zip(obs['final'], obs['chains'])):
+            if d is None or ch is None or 'exc' in d:
+                continue
+            texts = [d['scheme'], d['user'], d['pw'], d['host'], d['frag']] + d['parts'] + [x for kv in d['query'] for x in kv if x is not None]
+            if not all(isinstance(x, str) for x in texts) or any(has_surrogate(x) for x in texts):
+                continue
+            if not self.valid_scheme_host_port(d) or d['parts'][:1] != [''] or any(kk == '' and vv is None for kk, vv in d['query']):
+                continue
+            self.stats['derived_components_checked'] = self.stats.get('derived_components_checked', 0) + 1
+            f = self._check_components({'t': '<URL object %d after the steps>' % i}, *ch[:3])
+            if f is not None:
+                return Failure(f.tag, 'URL object %d after steps %r: %s' % (i, steps, f.what))
         return None
 
     def oracle_quote(self, case, obs):
@@ -1790,6 +2583,41 @@ class C06(Property):
         return getattr(self, '_nt', False)
 
     # ------------------------------------------------------------------ shrinking
+    _SALT = re.compile(r'Z[qrs]\d+')
+    _salt_n = 0
+
+    def _resalt(self, x):
+        C06._salt_n += 1
+        new = 'Zs%d' % C06._salt_n
+
+        def walk(v):
+            if isinstance(v, str):
+                return self._SALT.sub(new, v)
+            if isinstance(v, list):
+                return [walk(y) for y in v]
+            if isinstance(v, dict):
+                return {kk: walk(vv) for kk, vv in v.items()}
+            return v
+        return walk(x)
+
+    @staticmethod
+    def _fails_fresh(case):
+        """does the case fail (other than by the known finding) in a newly started interpreter?"""
+        import json
+        import os
+        import subprocess
+        import sys
+        code = ("import sys, json\nfrom bv.common import ensure_repo_on_path\nensure_repo_on_path()\n"
+                "from bv.props.c06 import C06\np = C06('quick', 0)\nc = json.load(sys.stdin)\no = p.impl(c)\nf = p.oracle(c, o)\n"
+                "print('FAIL' if f is not None and not p.finding_qp_alias_reparses(c, f) else 'ok')\n")
+        here = os.path.dirname(os.path.dirname(os.path.dirname(os.path.abspath(__file__))))
+        try:
+            r = subprocess.run([sys.executable, '-c', code], input=json.dumps(case), capture_output=True, text=True, timeout=60,
+                               env=dict(os.environ, PYTHONPATH=here, PYTHONDONTWRITEBYTECODE='1'))
+        except Exception:
+            return False
+        return r.stdout.strip().endswith('FAIL')
+
     def shrink(self, case):
         k = case['k']
         if k in ('q', 'u', 'p', 'l'):
@@ -1800,6 +2628,51 @@ class C06(Property):
                 yield dict(case, t=t[n // 2:])
             for i in range(n):
                 yield dict(case, t=t[:i] + t[i + 1:])
+            return
+        if k == 'h':
+            # whatever the failing run left behind in the module (a memo, a remembered argument) is still there, so in THIS
+            # process a candidate without the decisive earlier call would still look failing: candidates are tried in a
+            # fresh interpreter first, and only those that fail there are offered
+            pre = case['pre']
+            cands = [case['case']]               # without any history
+            if len(pre) > 3:
+                cands += [dict(case, pre=pre[:len(pre) // 2]), dict(case, pre=pre[len(pre) // 2:])]
+            if len(pre) > 1:
+                cands += [dict(case, pre=pre[:i] + pre[i + 1:]) for i in range(len(pre))][:12]
+            for c in cands:
+                c = self._resalt(c)
+                if self._fails_fresh(c):
+                    yield c
+            return
+        if k == 'd':
+            steps = case['steps']
+            creators = ('new', 'parse', 'copy', 'parts', 'nav', 'navself', 'navobj')
+
+            def refs(st):
+                if st[0] in ('new', 'parse'):
+                    return []
+                if st[0] == 'parts':
+                    return [x for x in (st[1]['qp_from'], st[1]['pp_from']) if x is not None]
+                return [st[1]]
+
+            def renum(st, gone):
+                st = list(st)
+                if st[0] in ('new', 'parse'):
+                    return st
+                if st[0] == 'parts':
+                    st[1] = dict(st[1], **{key: (None if st[1][key] is None else st[1][key] - (st[1][key] > gone)) for key in ('qp_from', 'pp_from')})
+                    return st
+                st[1] = st[1] - (st[1] > gone)
+                return st
+            for si in range(len(steps) - 1, -1, -1):
+                st = steps[si]
+                if st[0] not in creators:
+                    yield dict(case, steps=steps[:si] + steps[si + 1:])
+                    continue
+                idx = sum(1 for x in steps[:si] if x[0] in creators)
+                if any(idx in refs(x) for x in steps[si + 1:]) or (st[0] == 'parts' and idx == 0):
+                    continue
+                yield dict(case, steps=steps[:si] + [renum(x, idx) for x in steps[si + 1:]])
             return
         if k == 's':
             items = case['items']
